@@ -10,6 +10,7 @@ import ThriftVerif.Facts.ExpectCompile
 #print axioms ThriftVerif.Properties.C09.enum_wrap_rejected
 #print axioms ThriftVerif.Properties.C09.const_in_range
 #print axioms ThriftVerif.Properties.C09.i8_out_of_range_rejected
+#print axioms ThriftVerif.Properties.C09.struct_literal_field_twice_rejected
 #print axioms ThriftVerif.Properties.C09.enum_const_exact
 #print axioms ThriftVerif.Properties.C09.enum_cast_wrap_rejected
 #print axioms ThriftVerif.Properties.C09.function_names_unique
